@@ -67,6 +67,10 @@
     __CPROVER_requires(o->n <= VEC_CAP) \
     __CPROVER_ensures(v->n == o->n && __CPROVER_is_fresh(v->d, v->n * sizeof(T))) \
     __CPROVER_assigns(v->d, v->n); \
+  V V##__make_copy(const V *o) \
+    __CPROVER_requires(o->n <= VEC_CAP) \
+    __CPROVER_ensures(__CPROVER_return_value.n == o->n && __CPROVER_is_fresh(__CPROVER_return_value.d, __CPROVER_return_value.n * sizeof(T))) \
+    __CPROVER_assigns(); \
   void V##__resize(V *v, unsigned long n) \
     __CPROVER_requires(n <= VEC_CAP) \
     __CPROVER_ensures(v->n == n && __CPROVER_is_fresh(v->d, n * sizeof(T))) \
